@@ -60,6 +60,9 @@ static std::vector<Doc> docs(bool thorough) {
 	d.push_back({"a:nil,b:obj,c:arr", m({{Val::str("a"), Val::nil()}, {Val::str("b"), O()}, {Val::str("c"), A()}})});
 	d.push_back({"keys:uint,int,f32", m({{Val::integer(1), I()}, {Val::integer(-1), S()}, {Val::flt(1.5f), U()}}), true});
 	d.push_back({"keys:ts,f64,str", m({{Val::ts(1, 0), I()}, {Val::dbl(2.5), S()}, {Val::str("s"), A()}}), true});
+	// key names that are prefixes / extensions of each other, same value kind, different values (a lookup that confuses them is visible)
+	d.push_back({"prefix_keys:k,k1,k10", m({{Val::str("k"), Val::integer(11)}, {Val::str("k1"), Val::integer(12)}, {Val::str("k10"), Val::integer(13)}})});
+	d.push_back({"prefix_keys:abc,ab,a", m({{Val::str("abc"), Val::str("v-abc")}, {Val::str("ab"), Val::str("v-ab")}, {Val::str("a"), Val::str("v-a")}})});
 	if (thorough) d.push_back({"a:int,b:arr,c:longstr,d:obj", m({{Val::str("a"), I()}, {Val::str("b"), A()}, {Val::str("c"), L()}, {Val::str("d"), O()}})});
 	return d;
 }
